@@ -518,6 +518,19 @@ func ruleR10(c *Ctx, prop string) {
 		"C04": func(f *ssa.Function) bool { n := recvNamed(f); return n != nil && n.Obj().Name() == "MatMul" },
 	}
 	scope := scopeFiles[prop]
+	if prop == "C06" || prop == "C16" {
+		var roots []*ssa.Function
+		for _, nm := range []string{"RNN", "GRU", "LSTM", "Conv", "Gemm", "MatMul"} {
+			if prop == "C06" && (nm == "Conv" || nm == "MatMul") {
+				continue
+			}
+			if oi := c.opByName(nm); oi != nil {
+				roots = append(roots, oi.methods["Apply"])
+			}
+		}
+		reach := c.reachFrom(roots)
+		scope = func(f *ssa.Function) bool { return reach[f] }
+	}
 	if prop == "C08" {
 		// Expand: everything reachable from its Apply (its own Repeat calls or the broadcast helper's)
 		var roots []*ssa.Function
@@ -554,7 +567,7 @@ func ruleR10(c *Ctx, prop string) {
 		}
 	}
 	c.counts["R10.repeat_sites"] += n
-	floor := map[string]int{"C14": 3, "C03": 3, "C04": 2, "C08": 1}
+	floor := map[string]int{"C14": 3, "C03": 3, "C04": 2, "C08": 1, "C06": 1, "C16": 1}
 	if n < floor[prop] {
 		c.undecided("R10", "R10:floor", "", fmt.Sprintf("%d Repeat sites found in scope (floor %d)", n, floor[prop]))
 	}
